@@ -209,6 +209,8 @@ def e2e(ctx):
     # the archiver fails part-way through a backup's data file: whatever then exists under a final name must still be
     # the whole backup
     plans += [(prov, PASSPHRASES[1], 'readfault') for prov in (uc.PROVIDERS if ctx.tier == 'thorough' else ['yandex'])]
+    # gpg itself fails after having produced the beginning of the ciphertext
+    plans += [(prov, PASSPHRASES[0], 'gpgfails') for prov in (uc.PROVIDERS if ctx.tier == 'thorough' else ['google'])]
     if ctx.tier == 'thorough':
         plans.append(('dropbox', 'big', 'big'))
     for idx, (prov, pp, special) in enumerate(plans):
@@ -236,6 +238,14 @@ def e2e(ctx):
                 if os.path.exists(log):
                     os.unlink(log)
             shim_env, args = None, []
+            if special == 'gpgfails':
+                d = os.path.join(e.w.base, 'fakebin')
+                os.makedirs(d, exist_ok=True)
+                cnt = os.path.join(d, 'count')
+                with open(os.path.join(d, 'gpg'), 'w') as f:
+                    f.write('#!/bin/bash\nif [ ! -e %s ]; then : > %s; /usr/bin/gpg "$@" | head -c 9000; exit 2; fi\nexec /usr/bin/gpg "$@"\n' % (cnt, cnt))
+                os.chmod(os.path.join(d, 'gpg'), 0o755)
+                env = {'PATH': d + ':' + os.environ.get('PATH', '/usr/bin:/bin')}
             if special == 'readfault':
                 g, b = e.backups[-1]
                 shim_env = {'FAULT': 'read@%s=EIO@%d' % (os.path.join(e.w.root, g, b, 'data.tar.zst'), 2), 'WATCH': os.path.join(e.w.root, g, b)}
@@ -243,15 +253,15 @@ def e2e(ctx):
             o = e.upload(env=env, max_request_size=mx, timeout=900, shim_env=shim_env, args=args)
             case = {'kind': 'e2e', 'provider': prov, 'passphrase': pp, 'special': special, 'max_request_size': mx}
             stats['uploads'] += 1
-            if special == 'readfault':
-                stats['archiver_fault_runs'] = stats.get('archiver_fault_runs', 0) + 1
+            if special in ('readfault', 'gpgfails'):
+                stats['archiver_fault_runs' if special == 'readfault' else 'gpg_failure_runs'] = stats.get('archiver_fault_runs' if special == 'readfault' else 'gpg_failure_runs', 0) + 1
                 if not o['run'].errors():
-                    ctx.violation('runtime', 'the injected read fault did not fire', {'case': case}, found_input=False)
+                    ctx.violation('runtime', 'the injected fault (%s) did not fire' % special, {'case': case}, found_input=False)
                 for g, b in e.backups:
                     rel = '%s/%s.tar.gpg' % (g, b)
                     if rel in o['cloud']:
                         for p in decode_object(e.home, e.cloud_blob(rel), pp, b, os.path.join(e.w.root, g, b)):
-                            ctx.violation('property', p + ' [%s, after a read error in the archiver]' % prov, {'case': case, 'errors': o['run'].errors()[:3]})
+                            ctx.violation('property', p + ' [%s, after %s]' % (prov, 'a read error in the archiver' if special == 'readfault' else 'a failure of gpg'), {'case': case, 'errors': o['run'].errors()[:3]})
                 continue
             if o['run'].rc != 0 or o['run'].errors():
                 ctx.violation('property', 'vsb upload failed without any fault [%s]: %s' % (prov, o['run'].errors()[:3]), {'case': case})
